@@ -187,6 +187,14 @@ def gen_w2p(rng, allow_bad=True):
     """value for wavelength_to_pixel; returns (value, valid)"""
     n = rng.choice([1, 1, 2, 2, 3, 4])
     arrs = [gen_edges(rng)[0] for _ in range(n)]
+    if n >= 2 and rng.random() < 0.35:
+        # nested layouts: a broad array enclosing an earlier (or later) narrow one on both sides, in either list order
+        i, j = rng.sample(range(n), 2)
+        inner = arrs[i]
+        lo = inner[0] - dyadic(rng, 0.5, 40, 4)
+        hi = inner[-1] + dyadic(rng, 0.5, 40, 4)
+        k = rng.randint(2, 7)
+        arrs[j] = [lo + (hi - lo) * t / k for t in range(k + 1)]
     if allow_bad and rng.random() < 0.2:
         arrs[rng.randrange(n)] = gen_bad_edges(rng)
         return arrs, False
